@@ -343,3 +343,10 @@ mod tests {
         assert_eq!(count, 1);
     }
 }
+
+// Verification harnesses (compiled only by `cargo kani`; inert otherwise).
+#[cfg(kani)]
+#[allow(dead_code, unused_imports)]
+mod verif {
+    include!(concat!(env!("BTDHT_VERIF"), "/harness/storage.rs"));
+}
